@@ -23,7 +23,7 @@ pub static PROP: PropDef = PropDef {
         "the error code of a refused datagram is read through LocalError::from(InternalConnectionError), the conversion h3 itself uses",
     ],
     tape_len: 64,
-    random_cases: |t| t.pick(300_000, 10_000_000),
+    random_cases: |t| t.pick(1_200_000, 50_000_000),
     run_tape,
     exhaustive: Some(exhaustive),
     run_direct: Some(run_direct),
